@@ -244,3 +244,13 @@ func (c *Chain) Query(path string, req, resp ProtoMsg) error {
 	}
 	return resp.Unmarshal(r.Value)
 }
+
+// StoreWalk iterates the committed state of one module store under a key prefix (read only).
+func (c *Chain) StoreWalk(storeKey string, prefix []byte, f func(k, v []byte)) {
+	ctx := c.App.BaseApp.NewContext(true, tmproto.Header{Height: c.Height})
+	it := sdk.KVStorePrefixIterator(ctx.KVStore(c.App.GetKey(storeKey)), prefix)
+	defer it.Close()
+	for ; it.Valid(); it.Next() {
+		f(append([]byte{}, it.Key()...), append([]byte{}, it.Value()...))
+	}
+}
